@@ -122,8 +122,10 @@ PROPS = {
                                      "Codec/Codec.v: hand model of encoding/json's generic rules and of the package's irregular codecs (Schema, Response, SecurityScheme, Paths, Responses, unions), run against the implementation"],
         "level_text": "Coq theorems over tables regenerated from /repo (Props/C01.v): every keyword of the Swagger 2.0 and draft-4 meta-schemas, `$ref` and the "
                       "^x- extensions are decodable AND encodable for each of the 13 kinds (coverage), every listed kind carries extensions both "
-                      "ways, decoded parts = encoded parts, the hand-transcribed codecs still have the transcribed part structure. The full "
-                      "round-trip statement is kept as C01_statement and is NOT proved generically; it is checked by the differential run and the oracle.",
+                      "ways, decoded parts = encoded parts, the hand-transcribed codecs still have the transcribed part structure. UNBOUNDED, for the free-form "
+                      "positions (Codec/PayloadFacts.v): a payload in normal form (member names strictly increasing at every level) comes back with its exact "
+                      "value whatever its size and nesting, and every payload the codec emits is in that normal form. The full "
+                      "round-trip statement for the typed kinds is kept as C01_statement and is NOT proved generically; it is checked by the differential run and the oracle.",
         "level_note": "Partial: table-level obligations are proofs (vm_compute over generated tables, closed under the global context); the semantic round trip "
                       "for all documents is tied by the differential run (norm model vs Go, 0 mismatches required) — see DESIGN.md sections 4 and 9.",
         "technique": "Coq obligations over tables regenerated from source + differential run of the extracted codec model + property oracle",
@@ -155,9 +157,12 @@ PROPS = {
                 "byte stream for totality; non-trivial = non-empty document",
         "trusted_base": COMMON_TB + ["Codec/Codec.v", "encoding/json validates bytes before any UnmarshalJSON of the package runs (bytes -> tree is the standard library's)"],
         "level_text": "Coq: the model of decode-then-encode is a structural recursion on the JSON tree accepted by the guard checker (total on every tree, "
-                      "every kind); fixed-point examples by evaluation; the known non-fixed point (F4b) as a refutation witness. The full idempotence "
-                      "statement C07_statement is not proved generically; it is checked by the oracle on the implementation (all kinds x all documents).",
-        "level_note": "Partial: idempotence for all inputs rests on the oracle and the differential run; panics/stack exhaustion are runtime behaviour the model cannot exhibit (oracle runs with a watchdog).",
+                      "every kind); UNBOUNDED for the free-form positions (Codec/PayloadFacts.v: default, example, enum entries, extension values, unknown keywords): "
+                      "for every JSON value, duplicates and any nesting included, the encoding of a payload is a fixed point (norm_any is idempotent, its result "
+                      "strictly sorted at every level) and the vendor extensions of an encoded object are read back as written (ext_members idempotent); "
+                      "fixed-point examples by evaluation; the known non-fixed point (F4b) as a refutation witness. The full idempotence "
+                      "statement C07_statement for the typed kinds is not proved generically; it is checked by the oracle on the implementation (all kinds x all documents).",
+        "level_note": "Partial: idempotence is proved for free-form payloads and extensions; for the typed kinds it rests on the oracle and the differential run; panics/stack exhaustion are runtime behaviour the model cannot exhibit (oracle runs with a watchdog).",
         "technique": "Coq totality by structural recursion + evaluation witnesses + differential run + oracle",
         "assumptions": ["member names that case-fold onto a keyword are only checked for totality (the property's exception)"],
     },
@@ -321,7 +326,7 @@ PROPS = {
                                      "correspondence scope: every generated graph except those with schema ids and prefix-sibling documents (the areas of the open findings F9, F10, F10b), which are judged by the oracle only; multi-hop parameter/response/path-item chains and imported circular schemas are compared since the repairs of F7 and F8",
                                      "Codec/Codec.v (typed decoding of every resolved target) and Base/Url.v (normalizeURI, rebase)"],
         "level_text": 'Coq theorems (Props/C18.v), unbounded: (1) at every point of an expansion (also at an error), for every supplied cache: each document the loader served was requested exactly once, none of them was in the supplied cache, all are now cached, nothing was evicted — an invariant carried through the whole traversal by induction on fuel and tree size; (2) TRANSPARENCY (Expand/ExpandCache.v): two runs of the schema expansion from states with the same memo but arbitrary caches consistent with the loader (empty, pre-loaded, reused) and arbitrary coherent resolver roots return the same JSON and the same memo — for every store, stack, fuel and skip/abs setting in strict mode, graph hypotheses decided by the verified checker; discharged on the cyclic two-document graph (empty cache vs everything pre-loaded).',
-        "level_note": 'Partial: transparency is proved for the schema walk when both runs succeed (that a success with one cache implies a success with the other — completeness of resolution — is not proved); parameter/response/path-item levels and ExpandSpec as a whole are checked by the oracle; refused requests may be repeated (not cached, as in the code).',
+        "level_note": 'Partial: byte-for-byte transparency is proved for the schema walk when both runs succeed; for ExpandSpec as a whole (parameters, responses, path items, the four sections) it is proved up to meaning (both results are related to the input by spec_rel, whatever the two caches hold) and checked byte for byte by the oracle; refused requests may be repeated (not cached, as in the code).',
         "technique": "Coq proof about a hand-written executable model of the expander + differential run (exact on acyclic graphs, unfoldings on cyclic ones) + property oracle on the implementation",
         "assumptions": ["loader is a function of the URL during one call", "documents are in normal form (reference objects carry only $ref)"],
     },
